@@ -104,6 +104,7 @@ pub fn run_case(c: &Case) -> Option<String> {
     if k == "c14_quartic" { return run_c14_quartic(&p); }
     if k == "c14_polyn" { return run_c14_polyn(&p); }
     if k == "c04_spline" { return run_c04(&p); }
+    if k == "c04_struct" { return run_c04_struct(&p); }
     if k == "c06_linear" { return run_c06(&p); }
     if k == "c13_add" || k == "c13_sub" || k == "c15_ops" || k == "c11_integral" { return run_pwops(k, &p); }
     if k == "c17_approx" { return run_c17(&p); }
@@ -766,7 +767,40 @@ fn run_c04(p: &[f64]) -> Option<String> {
     }
     None
 }
+/// structure only (no numerics, so ill-conditioned knot lists are fine): one cubic per interval, each ending verbatim at its right abscissa
+fn run_c04_struct(p: &[f64]) -> Option<String> {
+    let knots: Vec<Knot> = p.chunks(2).map(|c| Knot { x: c[0], y: c[1] }).collect();
+    let s = constrained_spline(&knots);
+    if s.segments.len() != knots.len() - 1 { return Some(format!("{} knots gave {} cubics (one per interval expected); abscissae {:?}", knots.len(), s.segments.len(), knots.iter().map(|k| k.x).collect::<Vec<_>>())); }
+    for (i, sg) in s.segments.iter().enumerate() {
+        if sg.end.to_bits() != knots[i + 1].x.to_bits() { return Some(format!("cubic {} ends at {:e}, the right abscissa of its interval is {:e}", i, sg.end, knots[i + 1].x)); }
+    }
+    None
+}
+fn gen_c04_struct(rng: &mut Rng, count: usize, out: &mut Vec<Case>) {
+    for _ in 0..count {
+        let k = 3 + rng.below(10) as usize;
+        let mut x = match rng.below(5) { 0 => 0.0, 1 => 1.0, 2 => -1e9, 3 => 1e-300, _ => rng.float() };
+        let mut v = Vec::new();
+        for _ in 0..k {
+            v.push(x); v.push(rng.float());
+            // strictly increasing, by steps from "next float" to ordinary
+            x = match rng.below(6) {
+                0 => f64::from_bits(if x >= 0.0 { x.to_bits() + 1 } else { x.to_bits() - 1 }),
+                1 => { let y = x + 1e-17; if y > x { y } else { f64::from_bits(if x >= 0.0 { x.to_bits() + 1 } else { x.to_bits() - 1 }) } }
+                2 => { let y = x + x.abs() * 3e-16; if y > x { y } else { x + 1e-300 } }
+                3 => x + 1e-9,
+                _ => x + 0.5 + rng.unit(),
+            };
+            if x == 0.0 && v[v.len() - 2] == 0.0 { x = 5e-324; }
+        }
+        // keep only strictly increasing lists (next-float stepping across zero may stall)
+        let xs: Vec<f64> = v.chunks(2).map(|c| c[0]).collect();
+        if xs.windows(2).all(|w| w[0] < w[1]) { out.push(case("c04_struct", &v)); }
+    }
+}
 fn gen_c04(rng: &mut Rng, n: usize, out: &mut Vec<Case>) {
+    gen_c04_struct(rng, (n / 10).min(400), out);
     let shapes: Vec<Vec<(f64, f64)>> = vec![
         vec![(0.0, 0.0), (1.0, 1.0), (2.0, 2.0), (3.0, 3.0)],
         vec![(0.0, 0.0), (1.0, 1.0), (2.0, 0.0), (3.0, 1.0), (4.0, 0.0)],
